@@ -233,11 +233,15 @@ class CoreMixin(object):
                 self.escapes.append((cls, from_node))
 
     # --------------------------------------------------------------- classes
-    def eval_detached(self, module, expr, what):
-        """Evaluate a module/class-level expression outside the entry's flow."""
+    def eval_detached(self, module, expr, what, names=None):
+        """Evaluate a module/class-level expression outside the entry's flow
+        (``names``: the namespace of the class body the expression sits in)."""
         saved = (self.frame, self.cur, self.handlers, self.loops)
         try:
-            self.frame = Frame(None, module, Env(), (), 0)
+            env = Env()
+            if names:
+                env.vars.update(names)
+            self.frame = Frame(None, module, env, (), 0)
             self.handlers = []
             self.loops = []
             self.cur = self.new_node('modinit', expr, {'what': what})
